@@ -9,9 +9,9 @@ The flat class that reaches `expand_connectors` is abstracted to
 
 `flow_connections` is an ordered association list from flow key (flat variable name, inside flag)
 to the connection set the key currently belongs to.  In Python the sets are shared `OrderedDict`
-objects, merged in place by `update` and re-pointed for every member; here the set is a value and
-every member is re-pointed at the merged value (the correspondence run exercises exactly the
-situations where the two readings could differ: merges of two existing sets in either direction).
+objects, merged in place by `update` and re-pointed for every member.  Two readings are modelled:
+`connectStep` (the set is a value, every member is re-pointed at the merged value) and `Heap.step`
+(object identities, in-place mutation); `Props/C09.lean` proves that they cannot be told apart.
 -/
 namespace PymocaVerif.Connect
 
@@ -28,8 +28,8 @@ def insertKey (s : List κ) (k : κ) : List κ := if k ∈ s then s else s ++ [k
 /-- `left.update(right)` on key order. -/
 def update (s t : List κ) : List κ := t.foldl insertKey s
 
-/-- `flow_connections.get(k)`. -/
-def get? : FlowMap κ → κ → Option (List κ)
+/-- `flow_connections.get(k)` (any value type: a set value, or the identity of a set object). -/
+def get? {β : Type} : List (κ × β) → κ → Option β
   | [], _ => none
   | (k', s) :: m, k => if k' = k then some s else get? m k
 
@@ -37,7 +37,7 @@ def get? : FlowMap κ → κ → Option (List κ)
 def getD (m : FlowMap κ) (k : κ) : List κ := (get? m k).getD []
 
 /-- `flow_connections[k] = s` (existing key keeps its place, new key is appended). -/
-def setEntry : FlowMap κ → κ → List κ → FlowMap κ
+def setEntry {β : Type} : List (κ × β) → κ → β → List (κ × β)
   | [], k, s => [(k, s)]
   | (k', s') :: m, k, s => if k' = k then (k', s) :: m else (k', s') :: setEntry m k s
 
@@ -57,6 +57,47 @@ def connectAll (m : FlowMap κ) (es : List (κ × κ)) : FlowMap κ :=
 /-- The `processed` loop: the distinct values of the map in order of first occurrence. -/
 def distinctSets (m : FlowMap κ) : List (List κ) :=
   m.foldl (fun acc e => if e.2 ∈ acc then acc else acc ++ [e.2]) []
+
+/-! ### The same with Python's object identities
+
+`flow_connections` maps a key to a *reference*; the referenced `OrderedDict` is updated in place
+by `left.update(right)` and by the two item assignments, which every key holding that reference
+sees at once.  `Heap` keeps the objects in a list (identity = index). -/
+
+structure Heap (κ : Type) where
+  /-- the `OrderedDict` objects allocated so far (key order only; the values are functions of the keys) -/
+  objs : List (List κ)
+  /-- `flow_connections`: key ↦ identity of its set object -/
+  fc : List (κ × Nat)
+
+def Heap.empty : Heap κ := ⟨[], []⟩
+
+def Heap.obj (h : Heap κ) (i : Nat) : List κ := (h.objs[i]?).getD []
+
+/-- `flow_connections.get(k, OrderedDict())`: the object of `k`, or a fresh empty one. -/
+def Heap.lookupOrAlloc (h : Heap κ) (k : κ) : Nat × Heap κ :=
+  match get? h.fc k with
+  | some i => (i, h)
+  | none => (h.objs.length, { h with objs := h.objs ++ [[]] })
+
+/-- One flow variable of one connect clause, on the heap: the left object is mutated in place,
+    then every key of it is pointed at it. -/
+def Heap.step (h : Heap κ) (l r : κ) : Heap κ :=
+  let a := h.lookupOrAlloc l
+  let b := a.2.lookupOrAlloc r
+  let s := insertKey (insertKey (update (b.2.obj a.1) (b.2.obj b.1)) l) r
+  { objs := b.2.objs.set a.1 s, fc := s.foldl (fun fc k => setEntry fc k a.1) b.2.fc }
+
+def Heap.run (h : Heap κ) (es : List (κ × κ)) : Heap κ := es.foldl (fun h e => h.step e.1 e.2) h
+
+/-- The `processed` loop with `not in` read as object identity. -/
+def Heap.distinctIds (h : Heap κ) : List Nat :=
+  h.fc.foldl (fun acc e => if e.2 ∈ acc then acc else acc ++ [e.2]) []
+
+def Heap.sets (h : Heap κ) : List (List κ) := h.distinctIds.map h.obj
+
+/-- What the heap looks like to a reader that follows the references. -/
+def Heap.view (h : Heap κ) : FlowMap κ := h.fc.map fun e => (e.1, h.obj e.2)
 
 end Generic
 
@@ -122,11 +163,21 @@ inductive Err
   | unsupportedPrefixes (v : String) (prefixes : List String)
   deriving DecidableEq, Repr
 
-structure St where
+/-- The two readings of `flow_connections` the pass can run on. -/
+structure Store (σ : Type) where
+  init : σ
+  step : σ → Key → Key → σ
+  sets : σ → List (List Key)
+
+/-- sets as values, every member re-pointed at the merged value -/
+def valueStore : Store (FlowMap Key) := ⟨[], connectStep, distinctSets⟩
+/-- sets as shared heap objects mutated in place -/
+def heapStore : Store (Heap Key) := ⟨Heap.empty, Heap.step, Heap.sets⟩
+
+structure St (σ : Type) where
   eqs : List Eqn
-  fc : FlowMap Key
+  fc : σ
   disc : List String
-  deriving Repr
 
 /-- `disconnected_flow_variables.pop(name, None)` -/
 def popName (d : List String) (n : String) : List String := d.filter (· ≠ n)
@@ -134,10 +185,10 @@ def popName (d : List String) (n : String) : List String := d.filter (· ≠ n)
 def popAll (d : List String) (ns : List String) : List String := ns.foldl popName d
 
 /-- Which flows a connect clause takes off the list of unconnected flows.
-    `byName` is the code as it stands: both flat names, whatever the face.
-    `byFace` is the code with `proposed_fixes/C09-1.diff`: a name is popped only when the clause
-    uses the inside face of the connector or the connector is a top-level one
-    (`CLASS_SEPARATOR not in equation.left.name`). -/
+    `byFace` is the code as it stands (since the fix `2598ca8`, proposed as C09-1): a name is
+    popped only when the clause uses the inside face of the connector or the connector is a
+    top-level one (`CLASS_SEPARATOR not in equation.left.name`).
+    `byName` is the code before that fix: both flat names, whatever the face (finding C09-F1). -/
 inductive PopPolicy | byName | byFace
   deriving DecidableEq, Repr
 
@@ -152,26 +203,28 @@ def popsFor (pol : PopPolicy) (e : Edge) (ln rn : String) : List String :=
   | .byFace => (if e.linner || e.ltop then [ln] else []) ++ (if e.rinner || e.rtop then [rn] else [])
 
 /-- One connector variable of one connect clause. -/
-def stepVar (pol : PopPolicy) (e : Edge) (st : St) (v : CVar) : Except Err St :=
+def stepVar {σ : Type} (S : Store σ) (pol : PopPolicy) (e : Edge) (st : St σ) (v : CVar) :
+    Except Err (St σ) :=
   let ln := varName e.lname v.name
   let rn := varName e.rname v.name
   match classify v.prefixes with
   | .pot => .ok { st with eqs := st.eqs ++ [.pot ln rn] }
-  | .flow => .ok { st with fc := connectStep st.fc (ln, e.linner) (rn, e.rinner),
+  | .flow => .ok { st with fc := S.step st.fc (ln, e.linner) (rn, e.rinner),
                            disc := popAll st.disc (popsFor pol e ln rn) }
   | .skip => .ok st
   | .bad => .error (.unsupportedPrefixes v.name v.prefixes)
 
-def stepVars (pol : PopPolicy) (e : Edge) : St → List CVar → Except Err St
+def stepVars {σ : Type} (S : Store σ) (pol : PopPolicy) (e : Edge) :
+    St σ → List CVar → Except Err (St σ)
   | st, [] => .ok st
-  | st, v :: vs => match stepVar pol e st v with
-    | .ok st' => stepVars pol e st' vs
+  | st, v :: vs => match stepVar S pol e st v with
+    | .ok st' => stepVars S pol e st' vs
     | .error x => .error x
 
-def stepEdges (pol : PopPolicy) : St → List Edge → Except Err St
+def stepEdges {σ : Type} (S : Store σ) (pol : PopPolicy) : St σ → List Edge → Except Err (St σ)
   | st, [] => .ok st
-  | st, e :: es => match stepVars pol e st e.vars with
-    | .ok st' => stepEdges pol st' es
+  | st, e :: es => match stepVars S pol e st e.vars with
+    | .ok st' => stepEdges S pol st' es
     | .error x => .error x
 
 /-- The flow-sum equation of one connection set: no minus signs when every member is an
@@ -183,25 +236,35 @@ def sumEqn (s : List Key) : Eqn :=
 structure Input where
   flowSyms : List String
   edges : List Edge
-  policy : PopPolicy := .byName
+  policy : PopPolicy := .byFace
   deriving Repr
 
-def St.init (inp : Input) : St := { eqs := [], fc := [], disc := inp.flowSyms }
+def St.init {σ : Type} (S : Store σ) (inp : Input) : St σ :=
+  { eqs := [], fc := S.init, disc := inp.flowSyms }
 
 /-- Equations contributed by the end of the pass. -/
-def finish (st : St) : List Eqn :=
-  st.eqs ++ (distinctSets st.fc).map sumEqn ++ st.disc.map .zero
+def finish {σ : Type} (S : Store σ) (st : St σ) : List Eqn :=
+  st.eqs ++ (S.sets st.fc).map sumEqn ++ st.disc.map .zero
 
 /-- `expand_connectors`, restricted to what it derives from connect clauses. -/
-def expand (inp : Input) : Except Err (List Eqn) :=
-  match stepEdges inp.policy (St.init inp) inp.edges with
-  | .ok st => .ok (finish st)
+def expandWith {σ : Type} (S : Store σ) (inp : Input) : Except Err (List Eqn) :=
+  match stepEdges S inp.policy (St.init S inp) inp.edges with
+  | .ok st => .ok (finish S st)
   | .error x => .error x
 
-/-- The connection sets at the end (for the driver). -/
-def finalSets (inp : Input) : Except Err (List (List Key)) :=
-  match stepEdges inp.policy (St.init inp) inp.edges with
-  | .ok st => .ok (distinctSets st.fc)
+/-- The connection sets at the end. -/
+def finalSetsWith {σ : Type} (S : Store σ) (inp : Input) : Except Err (List (List Key)) :=
+  match stepEdges S inp.policy (St.init S inp) inp.edges with
+  | .ok st => .ok (S.sets st.fc)
   | .error x => .error x
+
+/-- The pass with sets as values (what the theorems of `Props/C09.lean` are stated about). -/
+def expand (inp : Input) : Except Err (List Eqn) := expandWith valueStore inp
+def finalSets (inp : Input) : Except Err (List (List Key)) := finalSetsWith valueStore inp
+
+/-- The pass with sets as shared objects (what the driver runs; equal to `expand` by
+    `Props/C09.lean: heap_pass_eq_value_pass`). -/
+def expandHeap (inp : Input) : Except Err (List Eqn) := expandWith heapStore inp
+def finalSetsHeap (inp : Input) : Except Err (List (List Key)) := finalSetsWith heapStore inp
 
 end PymocaVerif.Connect
